@@ -521,6 +521,9 @@ func c08Coverage(c *Ctx, ct *Cont, name string) {
 				nl++
 			}
 		}
+		if r := v.asRange(loop); r != nil {
+			loop = r
+		}
 		if nl != 1 || loop.Range == nil || !v.isRecvSpine(loop.Over) {
 			ob.Fail("expected exactly one range loop over the receiver's spine on every path, found %d", nl)
 			return
